@@ -57,6 +57,44 @@ def run(ctx: Ctx):
     check_call_site(ctx)
     check_inline_idiom(ctx, bf)
     check_subs_keywords(ctx)
+    ctx.section(check_rebinding, ctx, bf)
+    ctx.section(check_return_order, ctx)
+
+
+def check_rebinding(ctx: Ctx, bf: FuncInfo):
+    """MP-latest-def: Python resolves a call to the most recent definition of the name.  bind_function may reject a
+    second definition of a name or replace the first; returning early because the NAME IS ALREADY A KNOWN FUNCTION
+    keeps the first definition and silently drops the newer one - every later call is inlined with the wrong body."""
+    dp = bf.params[1] if len(bf.params) > 1 else "deff"
+    n = 0
+    for r in q.returns(bf):
+        if r.value is not None and not (isinstance(r.value, ast.Constant) and r.value.value is None):
+            continue
+        for e, pol in guard_facts(bf, r):
+            t = norm(e).replace(" ", "")
+            if pol and "know_function(" in t and f"{dp}[0]" in t:
+                n += 1
+                ctx.fail("MP-latest-def", bf, "a second definition of a name replaces the first or is rejected", f"`{norm(e)}` makes bind_function return without recording the definition: the name stays bound to its FIRST definition, while Python calls the most recent one (a helper redefined between two calls, a nested def shadowing a function passed in defs)", r)
+    if not n:
+        ctx.ok("MP-latest-def", bf, "a second definition of a name replaces the first or is rejected", "no early return under `the name is already a known function`", bf.node)
+
+
+def check_return_order(ctx: Ctx):
+    """MP-ret-order: bind_function keeps the LAST len(returns) expressions of the callee by position and the call site
+    pairs them with the return bits by position.  to_logicfun must hand the expressions over in definition order: a
+    re-ordering by symbol NAME is lexicographic (`_ret.10` sorts before `_ret.2`) and permutes the result bits of a
+    callee with more than ten of them."""
+    tl = ctx.repo.func("qlassfun.QlassF.to_logicfun")
+    bad = None
+    for c in q.calls(tl.node):
+        nm = c.func.id if isinstance(c.func, ast.Name) else (c.func.attr if isinstance(c.func, ast.Attribute) else None)
+        if nm in ("sorted", "sort"):
+            key = next((k.value for k in c.keywords if k.arg == "key"), None)
+            kt = norm(key) if key is not None else ""
+            numeric = "int(" in kt
+            if not numeric:
+                bad = c
+    ctx.check(bad is None, "MP-ret-order", tl, "the callee's expressions are handed over in definition order", "no re-ordering by name", f"`{norm(bad)[:80] if bad is not None else ''}` re-orders the callee's expressions by name: names compare as text, so `_ret.10` comes before `_ret.2`, while bind_function and the call site take the return expressions by position - a callee with more than ten result bits returns them permuted", bad)
 
 
 def check_defs_flow(ctx: Ctx):
